@@ -13,7 +13,7 @@ frames N { frame TY UPS {ECUPS}*NEC GSHIFT HAVECROP X0 Y0 W H BMODE BALPHA BCLAM
            tr K { rct B T | pal B N NBC NBD DP | sq N {H INPL B N}*N }*K
            pals K { W H data*(W*H) }*K
            tree <preorder: D PROP VAL | L CTX PRED OFF MUL>
-           coded 0|1 [ent 0..4]
+           coded 0|1 [ent 0..6] [tocperm SEED]
            chans K { W H data*(W*H) }*K }*N
 ```
 Answer: `ok <hex> nframes N { paths.. ; numGroups ; K { W H data } }` or `invalid <why>`.
@@ -195,12 +195,18 @@ def framePlan (nec : Nat) : P FramePlan := do
     match st with
     | "ent" :: _ => do let _ ← tok; nat
     | _ => pure 0)
+  -- optional: `tocperm SEED` (permuted TOC)
+  let tocSeed ← (do
+    let st ← get
+    match st with
+    | "tocperm" :: _ => do let _ ← tok; let k ← nat; pure (some k)
+    | _ => pure none)
   kw "chans"
   let nc ← nat
   let chans ← rep nc chan
   pure { hdr := { ty, upsampling := ups, ecUpsampling := ecups, groupShift := gshift, haveCrop, x0, y0, w, h,
                   blend := b, ecBlend := ecb, duration := dur, isLast, saveAsRef := saveRef, saveBeforeCt := sbct, gab, epfIters := epf },
-         chans, transforms := ts, pals, tree := t, wp, coded, ent }
+         chans, transforms := ts, pals, tree := t, wp, coded, ent, tocSeed }
 
 def plan : P (ImgHdr × List FramePlan) := do
   let img ← imgHdr
